@@ -654,7 +654,7 @@ func cmpConsts(f *ssa.Function, skip map[int64]bool) []int64 {
 
 // ruleC16LexerTokenizer: where the placeholder lexer and the consuming tokenizer must agree on comments and on the end of input.
 func ruleC16LexerTokenizer(c *Ctx) {
-	c.Doc("c16.lexer-tokenizer", "the placeholder lexer sees a comment exactly where the consuming tokenizer sees one, otherwise a `$n` is substituted inside a comment or left alone outside one (clause injection / altered statement): (a) a one-line comment ends on the same characters as the tokenizer's scanCommentType1 (the line feed only; no backslash escapes); (b) `//` starts a one-line comment as it does for the tokenizer; (c) `--` starts one only in front of white space or the end; (d) block comments do not nest (the tokenizer ends at the first `*/`); (e) every state recognises the end of input by a zero-width decode, so that an invalid UTF-8 byte does not truncate the statement; (f) a placeholder number cannot wrap around; (g) a float argument is rendered only when finite")
+	c.Doc("c16.lexer-tokenizer", "the placeholder lexer sees a comment exactly where the consuming tokenizer sees one, otherwise a `$n` is substituted inside a comment or left alone outside one (clause injection / altered statement): (a) a one-line comment ends on the same characters as the tokenizer's scanCommentType1 (the line feed only; no backslash escapes); (b) `//` starts a one-line comment as it does for the tokenizer; (c) `--` starts one only in front of white space or the end; (d) block comments do not nest (the tokenizer ends at the first `*/`); (e) every state recognises the end of input by a zero-width decode, so that an invalid UTF-8 byte does not truncate the statement; (f) a placeholder number cannot wrap around; (g) a float argument is rendered only when finite; (h) an integer argument only when a float64 (the engine's only number type) holds it exactly")
 	pkg := c.P.SSAPkgs[sanitizePath]
 	if pkg == nil {
 		c.Unknown("c16.lexer-tokenizer", "sanitizer", "-", "anchor lost")
@@ -805,6 +805,38 @@ func ruleC16LexerTokenizer(c *Ctx) {
 			finite = nan && inf
 		})
 	}
+	// (h) an integer argument is rendered only when the engine's number type holds it exactly
+	exact, sawInt := false, false
+	if san != nil {
+		deepInstrs(san, func(_ *ssa.Function, _ *TB, b *ssa.BasicBlock, in ssa.Instruction) {
+			call, ok := in.(*ssa.Call)
+			if !ok || calleeName(call.Common()) != "strconv.FormatInt" {
+				return
+			}
+			sawInt = true
+			for _, fc := range factsAt(b) {
+				bo, isBo := fc.cond.(*ssa.BinOp)
+				if !isBo || !(bo.Op == token.NEQ && !fc.truth || bo.Op == token.EQL && fc.truth) {
+					continue
+				}
+				for _, pr := range [][2]ssa.Value{{bo.X, bo.Y}, {bo.Y, bo.X}} {
+					// int64(float64(v)) compared with v
+					outer, ok1 := pr[0].(*ssa.Convert)
+					if !ok1 {
+						continue
+					}
+					inner, ok2 := outer.X.(*ssa.Convert)
+					if !ok2 {
+						continue
+					}
+					if bt, isB := inner.Type().Underlying().(*types.Basic); isB && bt.Kind() == types.Float64 && inner.X == pr[1] {
+						exact = true
+					}
+				}
+			}
+		})
+	}
+	c.Check(exact || !sawInt, "c16.lexer-tokenizer", "int-exact", "sanitizer/sanitizer.go", "FormatInt is reached only for integers a float64 holds exactly", "an int64 argument is rendered without checking that it survives the engine's number type: every numeric literal is evaluated as a float64, so 9007199254740993 echoes as 9007199254740992 — the literal does not evaluate to the argument supplied")
 	c.Check(finite, "c16.lexer-tokenizer", "float-finite", "sanitizer/sanitizer.go", "FormatFloat is reached only for finite values", "a float64 argument is rendered without excluding NaN and the infinities: their text (NaN, +Inf) is read by the parser as a column reference, so the argument selects document data")
 }
 
